@@ -101,7 +101,19 @@ func Compare(a, b Value) int {
 type Table struct {
 	Name string
 	Cols []string
-	Rows [][]Value
+	// Kinds, when set, gives the column classes ('i' integer, 's' string): a canonical integer string stored
+	// into an integer column becomes that integer, as in MySQL
+	Kinds []byte
+	Rows  [][]Value
+}
+
+func (t *Table) coerce(i int, v Value) Value {
+	if t.Kinds != nil && i < len(t.Kinds) && t.Kinds[i] == 'i' && v.IsS && !v.Null {
+		if n, err := strconv.ParseInt(v.S, 10, 64); err == nil && strconv.FormatInt(n, 10) == v.S {
+			return Int(n)
+		}
+	}
+	return v
 }
 
 func (t *Table) col(name string) int {
@@ -116,6 +128,8 @@ func (t *Table) col(name string) int {
 // Store holds tables keyed by "db.table" (lower case).
 type Store struct {
 	Tables map[string]*Table
+	// NoUnique: the first column is not a primary key (duplicate values are stored as separate rows)
+	NoUnique bool
 }
 
 func NewStore() *Store { return &Store{Tables: map[string]*Table{}} }
@@ -882,7 +896,7 @@ func (e *exec) insert(n *ast.InsertStmt) (*Result, error) {
 			if err != nil {
 				return nil, err
 			}
-			row[i] = v
+			row[i] = t.coerce(i, v)
 		}
 		rows = append(rows, row)
 	} else {
@@ -912,7 +926,7 @@ func (e *exec) insert(n *ast.InsertStmt) (*Result, error) {
 				if err != nil {
 					return nil, err
 				}
-				row[idx[k]] = v
+				row[idx[k]] = t.coerce(idx[k], v)
 			}
 			rows = append(rows, row)
 		}
@@ -922,7 +936,7 @@ func (e *exec) insert(n *ast.InsertStmt) (*Result, error) {
 	for _, row := range rows {
 		dup := -1
 		for i, r := range t.Rows {
-			if !row[0].Null && !r[0].Null && Compare(r[0], row[0]) == 0 {
+			if !e.s.NoUnique && !row[0].Null && !r[0].Null && Compare(r[0], row[0]) == 0 {
 				dup = i
 			}
 		}
@@ -985,7 +999,7 @@ func (e *exec) update(n *ast.UpdateStmt) (*Result, error) {
 			if err != nil {
 				return nil, err
 			}
-			sets = append(sets, set{i, v})
+			sets = append(sets, set{i, t.coerce(i, v)})
 		}
 		for _, s := range sets {
 			if r[s.i].key() != s.v.key() {
